@@ -345,6 +345,8 @@ func runRegion(d Desc, cw *hlib.CaseWriter) {
 		return
 	}
 	nonce := uint64(d.Sub<<8) | 1
+	guard := newAliasGuard("region", h.etxs, fail)
+	defer guard.final(h.etxs)
 	idOfHash := map[common.Hash]int{}
 	for _, e := range h.etxs {
 		idOfHash[e.tx.Hash()] = e.id
@@ -353,6 +355,7 @@ func runRegion(d Desc, cw *hlib.CaseWriter) {
 		fail("route-region:setup", "generated ETXs are not distinct")
 		return
 	}
+	forgeRng := hlib.NewRng(d.Sub ^ 0xf0e1d2).Fork() // its own stream: the generated history does not depend on it
 	// zone blocks: the region learns the ETXs each emitted through the real AddPendingEtxs
 	register := func(z *rZone, wo *types.WorkObject) bool {
 		etxs := types.Transactions{}
@@ -361,10 +364,17 @@ func runRegion(d Desc, cw *hlib.CaseWriter) {
 		}
 		pe := types.PendingEtxs{Header: wo.ConvertToPEtxView(), OutboundEtxs: etxs}
 		z.hash, z.hdr = pe.Header.Hash(), wo
+		// alias.go: in a share of the bundles a forged one for the same header arrives first (also for the ones that then stay missing)
+		stored := func() (bool, bool, types.Transactions) { return node.StoredPending(z.hash, wo.Location()) }
+		forged := forgedFirst("region", forgeRng, 30, etxs, h.etxs, func(l types.Transactions) error {
+			return node.AddPendingEtxs(types.PendingEtxs{Header: wo.ConvertToPEtxView(), OutboundEtxs: l})
+		}, stored, fail)
 		if z.missing {
 			return true
 		}
-		if err := node.AddPendingEtxs(pe); err != nil {
+		err := node.AddPendingEtxs(pe)
+		afterGenuine("region", forged, etxs, err, stored, fail)
+		if err != nil {
 			fail("route-region:setup", "AddPendingEtxs refused a well formed bundle: "+err.Error())
 			return false
 		}
@@ -461,12 +471,15 @@ func runRegion(d Desc, cw *hlib.CaseWriter) {
 	var rc *recCtx
 	var recAns map[*rBlock][]types.Transactions
 	if isRecover(d.Shape) {
-		rc = &recCtx{level: "region", ctxN: common.REGION_CTX, node: node, h: h, d: d, idOfHash: idOfHash, fail: fail, cw: cw}
+		rc = &recCtx{level: "region", ctxN: common.REGION_CTX, node: node, h: h, d: d, idOfHash: idOfHash, fail: fail, cw: cw, guard: guard}
 		recAns = recoverPhase(rc)
 	}
 
 	collect := func(b *rBlock, order int) rObs {
 		l, err := node.CollectNewlyConfirmedEtxs(b.wo, order)
+		// alias.go: content check, then the set is used as Slice.Append uses it (copies rewritten); every later call of
+		// the scenario therefore runs on caches that have been through such a use
+		guard.use(l, fmt.Sprintf("CollectNewlyConfirmedEtxs of region block %d at order %d", b.id, order))
 		return rObs{classifyCollectErr(err), l}
 	}
 	idsOf := func(l types.Transactions) (string, bool) {
@@ -489,6 +502,7 @@ func runRegion(d Desc, cw *hlib.CaseWriter) {
 	for _, b := range h.blocks {
 		// CollectSubRollup
 		roll, err := node.CollectSubRollup(b.wo)
+		guard.use(roll, fmt.Sprintf("CollectSubRollup of region block %d", b.id))
 		var want types.Transactions
 		complete := true
 		for _, z := range b.manifest {
